@@ -235,10 +235,12 @@ def random_contracts(reg, cls=IN):
             'range': '0 <= ival(result) and ival(result) < pow2(%s)' % BITS,
             'exact': '%s ==> pow2(%s - 1) <= ival(result)' % (EXACT, BITS),
             'type': 'type(result) is cls'},
-        lemmas={'exit': {'cat': 'be_cat(bytes([%s]), %s)' % (top, rest),
-                         'bits': 'pow2_add(%s, 8 * (%s - 1))' % (SB, NB)}},
+        lemmas={'exit': {'ceil': '%s == (%s - 1) // 8 + 1 and 1 <= %s and %s <= 8' % (NB, BITS, SB, SB),
+                         'cat': 'be_cat(bytes([%s]), %s)' % (top, rest),
+                         'bits': 'pow2_add(%s, 8 * (%s - 1))' % (SB, NB),
+                         'lt': 'be_lt(%s)' % rest}},
         modifies=['kwargs', TP + '.g_pos'], result='obj:' + cls,
-        options={'enum_shift': 8, 'pow2_consts': True, 'int_lemmas': []})))
+        options={'enum_shift': 8, 'pow2_consts': True})))
     return out
 
 
